@@ -4,6 +4,8 @@ from __future__ import annotations
 
 import time
 
+from collections import Counter
+
 import numpy as np
 
 ID = "C16"
@@ -179,6 +181,16 @@ def case_sampler(case, obs) -> None:  # noqa: C901, PLR0912, PLR0915
         exc = res["exc"]
         if isinstance(exc, AdaptationError):
             obs.count("adaptation_error_runs")
+            # documented only for a variance / covariance adapter that saw fewer than two samples: legitimate iff some
+            # adaptive stage with such an adapter offers fewer than two (iterations x chains)
+            plan = list(samp.stage_plan(cfg, res["kw"]).items())
+            starved = [k for k, st in plan if st.adapters is not None and st.n_iter * cfg["n_chain"] < 2 and st.n_iter > 0 and any(
+                "Variance" in type(a).__name__ or "Covariance" in type(a).__name__ for v in st.adapters.values() for a in v)]
+            n_upd = Counter(c[0] for c in calls if c[1] == "update")
+            if not starved:
+                obs.violation("sampler:adaptation-error-with-enough-samples",
+                              f"{exc!r} although every adaptive stage with a metric adapter has >= 2 samples "
+                              f"(stages {[(k, st.n_iter) for k, st in plan]}, {cfg['n_chain']} chains; update calls seen {dict(n_upd)}); cfg={cfg}")
             return
         if exc is not None:
             raise exc
@@ -217,6 +229,19 @@ def case_sampler(case, obs) -> None:  # noqa: C901, PLR0912, PLR0915
                 if na:
                     n_adaptive += na
                     want_init += na * n_chain
+        # 2b. every active adapter is updated once per iteration and chain of its stages
+        want_upd = Counter()
+        for _k, st in stages:
+            if st.adapters is not None:
+                for v in st.adapters.values():
+                    for a in v:
+                        want_upd[type(a).__name__] += st.n_iter * n_chain
+        got_upd = Counter(c[0] for c in calls if c[1] == "update")
+        obs.count("adapter_update_counts_checked", len(want_upd))
+        if {k: v for k, v in want_upd.items() if v} != dict(got_upd):
+            obs.violation("sampler:adapter-update-count",
+                          f"update calls per adapter {dict(got_upd)} but the stage plan has {dict(want_upd)} (iterations x chains of the "
+                          f"stages in which each adapter is active); cfg={cfg}")
         n_init = sum(1 for c in calls if c[1] == "initialize")
         n_fin = sum(1 for c in calls if c[1] == "finalize")
         obs.count("adapter_calls_logged", len(calls))
